@@ -15,8 +15,9 @@ PYSIM = "amaranth/sim/pysim.py"
 MUTANTS = []
 
 
-def M(id, props, file, old, new, expect, count=1):
-    MUTANTS.append({"id": id, "props": props, "file": file, "old": old, "new": new, "expect": expect, "count": count})
+def M(id, props, file, old, new, expect, count=1, base=None):
+    MUTANTS.append({"id": id, "props": props, "file": file, "old": old, "new": new, "expect": expect, "count": count,
+                    "base": base})
 
 
 # ------------------------------------------------------------------------------------------------ C01 / C05
@@ -374,6 +375,8 @@ M("c19-metadata-sorted", ["C19"], RES,
   '                        PortMetadata(name, attrs)\n                        for name in sorted(phys_names)\n                    ])', "R-19c")
 M("c19-invert-dropped", ["C19"], RES,
   'port = io.SingleEndedPort(iop, invert=phys.invert, direction=direction)', 'port = io.SingleEndedPort(iop, direction=direction)', "R-19c")
+M("c02-match-cases-after-default", ["C02"], PYRTL,
+  "                    if patterns is None:\n                        # Cases after the default one are unreachable; Python rejects a `match`\n                        # statement in which anything follows the wildcard pattern.\n                        break\n", "", "R-02b")
 M("c19-hierarchy-leaf-only", ["C19"], "amaranth/build/plat.py",
   "return separator.join(self._name_map[net][1:])", "return separator.join(self._name_map[net][-1:])", "R-19e")
 M("c19-hierarchy-keeps-design-name", ["C19"], "amaranth/build/plat.py",
@@ -523,3 +526,25 @@ M("c20-emit-format-spliced", ["C20"], PYRTL, '                gen_chunks.append(
 M("c20-value-to-string-chr", ["C20"], PYEVAL, "    return msg.decode()", "    return \"\".join(chr(b) for b in msg)", "R-20a")
 M("c20-print-unnormalised", ["C20"], PYRTL, "                value = self.rhs.sign(value)\n                if format_desc.endswith", "                value = self.rhs(value)\n                if format_desc.endswith", ["R-20a", "R-01c"])
 M("c20-sync-print-no-edge", ["C20"], IR, "                cell = _nir.SyncPrint(module_idx, en=cond,\n                                      clk=clk, clk_edge=cd.clk_edge,", "                cell = _nir.SyncPrint(module_idx, en=cond,\n                                      clk=clk, clk_edge=\"pos\",", "R-20c")
+
+
+# ------------------------------------------------------------------------------------------------ refactored, then broken
+# a behaviour-preserving refactoring of the benign corpus is applied first (base=...), then one edit breaks the refactored
+# code: the rules must see through the new spelling AND still catch the defect
+M("rb-c05-3-concat-first-min", ["C02", "C05"], PYEVAL, "first = max(lhs_start, part_start)", "first = min(lhs_start, part_start)", "R-02e", base="C05-3")
+M("rb-c05-3-concat-last-unclipped", ["C02", "C05"], PYEVAL, "last  = min(lhs_stop, part_stop)", "last  = lhs_stop", "R-02e", base="C05-3")
+M("rb-c02-4-concat-rhs-start", ["C02", "C04"], IR, "part_rhs_start = max(part_start - lhs_start, 0)", "part_rhs_start = max(lhs_start - part_start, 0)", "R-02e", base="C02-4")
+M("rb-c05-5-table-sub-as-add", ["C01", "C05"], PYEVAL, '"-":  operator.sub,', '"-":  operator.add,', "R-01b", base="C05-5")
+M("rb-c05-1-xor-merge-wrong-base", ["C02", "C05", "C08"], PYSIM, "value = self.next ^ ((self.next ^ value) & mask)", "value = self.curr ^ ((self.curr ^ value) & mask)", "R-02g", base="C05-1")
+M("rb-c05-4-setdefault-seeded-zero", ["C02", "C08", "C11"], PYSIM, "queued = self.write_queue.setdefault(addr, self.data[addr])", "queued = self.write_queue.setdefault(addr, 0)", "R-02g", base="C05-4")
+M("rb-c11-6-helper-no-comb-check", ["C05"], PYEVAL, "    if sim.slots[slot].is_comb:\n        raise DriverConflict(\"Combinationally driven signals cannot be overriden by testbenches\")\n    value = sim.slots[slot].next\n    mask = _bit_range_mask(start, stop)", "    value = sim.slots[slot].next\n    mask = _bit_range_mask(start, stop)", "R-05c", base="C11-6")
+M("rb-c08-5-helper-flag-after-run", ["C08"], PYSIM, "        process.runnable = False\n        process.run()", "        process.run()\n        process.runnable = False", "R-08b", base="C08-5")
+M("rb-c17-6-chain-wrong-domain", ["C17", "C13"], "amaranth/lib/cdc.py", "        last = _chain_flops(m, self._o_domain, self.i, flops)", '        last = _chain_flops(m, "sync", self.i, flops)', "R-17a", base="C17-6")
+M("rb-c13-4-chain-skips-input", ["C17", "C13"], "amaranth/lib/cdc.py", "        prev_stage = self.i\n", "        prev_stage = Const(0)\n", "R-17a", base="C13-4")
+M("rb-c06-5-conflict-check-dropped", ["C06"], IR, "                            self._check_driver_conflict(sig, bit, driver, assign, *driven_bits[bit])", "                            pass", "R-06e", base="C06-5")
+M("rb-c18-1-direction-bidir-input", ["C18"], LIO, "        if self is other or other is Direction.Bidir:", "        if self is other or other is Direction.Input:", "R-18a", base="C18-1")
+M("rb-c10-4-enum-unify-dropped-member", ["C10"], AST, "                member_shapes.append(Const.cast(member.value).shape())", "                member_shapes = [Const.cast(member.value).shape()]", "R-10c", base="C10-4")
+M("rb-c01-3-unify-no-zero-bit", ["C01", "C10"], AST, "return signed(max(*signed_widths, unsigned_width + 1))", "return signed(max(*signed_widths, unsigned_width))", ["R-01e", "R-10c"], base="C01-3")
+M("rb-c15-5-field-bits-wrong-offset", ["C15"], "amaranth/lib/data.py", "    mask = ((1 << cast_shape.width) - 1) << field.offset\n    return mask, (value.value << field.offset) & mask", "    mask = ((1 << cast_shape.width) - 1) << field.offset\n    return mask, (value.value << field.width) & mask", "R-15c", base="C15-5")
+M("rb-c19-3-map-name-single-hop", ["C19"], "amaranth/build/dsl.py", '            while ":" in name:', '            if ":" in name:', "R-19c", base="C19-3")
+M("rb-c20-3-caret-allowed", ["C20"], AST, '        if align == "^":\n            raise ValueError(f"Alignment {align!r} is not supported")\n', "", "R-20b", base="C20-3")
